@@ -27,6 +27,8 @@ pub(crate) trait MCTPControlMessageRequest {
     fn command_code(&self) -> u8;
 
     /// Get the length of the request data command
+    /// A return value of zero indicates a variable or unknown length, the
+    /// length of those commands is not checked
     fn get_request_data_len(&self) -> usize {
         match self.command_code().into() {
             CommandCode::Reserved => 0,
@@ -38,24 +40,25 @@ pub(crate) trait MCTPControlMessageRequest {
             CommandCode::GetVendorDefinedMessageSupport => 1,
             CommandCode::ResolveEndpointID => 1,
             CommandCode::AllocateEndpointIDs => 3,
-            CommandCode::RoutingInformationUpdate => unimplemented!(),
-            CommandCode::GetRoutingTableEntries => unimplemented!(),
-            CommandCode::PrepareForEndpointDiscovery => unimplemented!(),
-            CommandCode::EndpointDiscovery => unimplemented!(),
-            CommandCode::DiscoveryNotify => unimplemented!(),
-            CommandCode::GetNetworkID => unimplemented!(),
-            CommandCode::QueryHop => unimplemented!(),
-            CommandCode::ResolveUUID => unimplemented!(),
-            CommandCode::QueryRateLimit => unimplemented!(),
-            CommandCode::RequestTXRateLimit => unimplemented!(),
-            CommandCode::UpdateRateLimit => unimplemented!(),
-            CommandCode::QuerySupportedInterfaces => unimplemented!(),
-            CommandCode::Unknown => unimplemented!(),
+            CommandCode::RoutingInformationUpdate => 0,
+            CommandCode::GetRoutingTableEntries => 0,
+            CommandCode::PrepareForEndpointDiscovery => 0,
+            CommandCode::EndpointDiscovery => 0,
+            CommandCode::DiscoveryNotify => 0,
+            CommandCode::GetNetworkID => 0,
+            CommandCode::QueryHop => 0,
+            CommandCode::ResolveUUID => 0,
+            CommandCode::QueryRateLimit => 0,
+            CommandCode::RequestTXRateLimit => 0,
+            CommandCode::UpdateRateLimit => 0,
+            CommandCode::QuerySupportedInterfaces => 0,
+            CommandCode::Unknown => 0,
         }
     }
 
     /// Get the length of the response data command
-    /// A return value of zero indicates a variable length
+    /// A return value of zero indicates a variable or unknown length, the
+    /// length of those commands is not checked
     fn get_response_data_len(&self) -> usize {
         match self.command_code().into() {
             CommandCode::Reserved => 0,
@@ -65,21 +68,21 @@ pub(crate) trait MCTPControlMessageRequest {
             CommandCode::GetMCTPVersionSupport => 5,
             CommandCode::GetMessageTypeSupport => 0,
             CommandCode::GetVendorDefinedMessageSupport => 0,
-            CommandCode::ResolveEndpointID => unimplemented!(),
+            CommandCode::ResolveEndpointID => 0,
             CommandCode::AllocateEndpointIDs => 4,
             CommandCode::RoutingInformationUpdate => 1,
-            CommandCode::GetRoutingTableEntries => unimplemented!(),
-            CommandCode::PrepareForEndpointDiscovery => unimplemented!(),
-            CommandCode::EndpointDiscovery => unimplemented!(),
-            CommandCode::DiscoveryNotify => unimplemented!(),
-            CommandCode::GetNetworkID => unimplemented!(),
-            CommandCode::QueryHop => unimplemented!(),
-            CommandCode::ResolveUUID => unimplemented!(),
-            CommandCode::QueryRateLimit => unimplemented!(),
-            CommandCode::RequestTXRateLimit => unimplemented!(),
-            CommandCode::UpdateRateLimit => unimplemented!(),
-            CommandCode::QuerySupportedInterfaces => unimplemented!(),
-            CommandCode::Unknown => unimplemented!(),
+            CommandCode::GetRoutingTableEntries => 0,
+            CommandCode::PrepareForEndpointDiscovery => 0,
+            CommandCode::EndpointDiscovery => 0,
+            CommandCode::DiscoveryNotify => 0,
+            CommandCode::GetNetworkID => 0,
+            CommandCode::QueryHop => 0,
+            CommandCode::ResolveUUID => 0,
+            CommandCode::QueryRateLimit => 0,
+            CommandCode::RequestTXRateLimit => 0,
+            CommandCode::UpdateRateLimit => 0,
+            CommandCode::QuerySupportedInterfaces => 0,
+            CommandCode::Unknown => 0,
         }
     }
 }
